@@ -18,8 +18,7 @@ def showErr (e : Err) : String := "err " ++ (match e with
   | .negLen => "negLen" | .fracFrames => "fracFrames" | .overrun => "overrun" | .indexError => "indexError"
   | .logPass => "logPass" | .logPassCtor => "logPassCtor" | .zeroDiv => "zeroDiv" | .frameSet => "frameSet"
   | .fileRead => "fileRead" | .repCode => "repCode" | .lr => "lr" | .dsb => "dsb" | .cbInit => "cbInit"
-  | .assertion => "assertion" | .typeError => "typeError" | .attributeError => "attributeError"
-  | .unsupported => "unsupported")
+  | .assertion => "assertion" | .typeError => "typeError" | .unsupported => "unsupported")
 
 def showKind : Kind → String
   | .table => "TB" | .none_ => "NO" | .unknownFmt => "UF" | .fileHead => "FH" | .fileTail => "FT"
